@@ -66,6 +66,7 @@ struct RunCfg {
     std::vector<double> wall_advance;       // seconds of simulated wall clock per ministep, cycled
     bool shut_report_rates = false;         // C09 probe: a well reported SHUT still carries non-zero stub rates (must be ignored)
     unsigned extra_mask = 1;                // which extra restart arrays the run saves / a restarted run asks for (bit k = extra_catalogue()[k])
+    bool wtest_activity = false;            // the physics stub closes wells that have a WTEST entry (economic/physical) and re-tests them as a simulator does (WellTestState content)
     bool add_run = true;                    // the Action::State::add_run a production driver performs
 };
 
